@@ -120,10 +120,18 @@ fn build(picks: &[P], b: &mut B, depth: usize, xf: &dyn Fn(BBox) -> BBox) -> Vec
             12 => out.push(XEl::new("image").a("id", id).a("xy", format!("{} {}", num(x), num(y))).a("wh", format!("{} {}", num(w), num(h))).a("href", "pic.png")),
             13 => {
                 let mut t = XEl::new("text").a("id", id).a("xy", format!("{} {}", num(x), num(y)));
-                if p.f % 2 == 0 {
+                if p.f % 3 == 0 {
                     t.set("text", "standalone");
-                } else {
+                } else if p.f % 3 == 1 {
                     t.kids.push(X::Text("standalone content".into()));
+                } else {
+                    // a standalone text element whose content is given as tspans (written as in plain SVG, with x / y): still
+                    // anchored at that point
+                    t.attrs.retain(|(k, _)| k != "xy");
+                    t.set("x", num(x));
+                    t.set("y", num(y));
+                    t.kids.push(X::El(XEl::new("tspan").text("first")));
+                    t.kids.push(X::El(XEl::new("tspan").a("dy", "1.2em").text("second")));
                 }
                 out.push(t);
             }
